@@ -58,7 +58,7 @@ func main() {
 		o.Cleanup()
 		return
 	}
-	schedules, events := 400, 3000
+	schedules, events := 4800, 3000
 	if o.Thorough() {
 		schedules, events = 500000, 8000
 	}
